@@ -829,8 +829,12 @@ class C15(FaultMonitorMixin, BaseMonitor):
     def step(self, i, op):
         sim = self.sim
         if op.get("revert"):
+            # (the failure this re-assignment answers is found by what it re-assigns, not by a recorded position: a
+            # minimised history must not make it answer another failure)
+            idx = next((n_ for n_, b in enumerate(self.broken) if self.revert_key(b[0]) == self.revert_key(op)), None)
+            if idx is None:
+                return "skip"
             status, ret = self.execute(op)
-            idx = op.get("broken_index", 0)
             if status == "ok":
                 if idx < len(self.broken):
                     self.broken.pop(idx)
@@ -909,6 +913,15 @@ class C15(FaultMonitorMixin, BaseMonitor):
             return "failed"
         if op.get("fault"):
             self.res.count("fault_did_not_fire:" + op.get("expect_site", "?"))
+            if self.broken:
+                # an edit meant to fail was accepted because a failed link / list edit is installed (the job sits on
+                # another storage, outside the system...): it is a valid edit of *that* model, and it can make the
+                # previous links impossible to restore for its own reasons - nothing the statement promises can be
+                # checked on this history any more
+                self.res.count("inconclusive:edit_meant_to_fail_accepted_while_broken")
+                self.stop = "inconclusive_edit_accepted_while_broken"
+                self.broken = []
+                return "ok"
         if not self.broken:
             self.compare_with_reference(i, op, "C15", "edit_after_recovery_deviates" if self.episodes else "edit_deviates")
         return "ok"
